@@ -35,11 +35,22 @@ class DataFrame:
     def equals(self, other):
         return isinstance(other, DataFrame) and self.rows == other.rows
 
-    def to_pickle(self, name, **kw):
-        minixr._FS[0].put(name, ("DFPICKLE", self.copy()))
+    def to_pickle(self, name, compression="infer", **kw):
+        minixr._FS[0].put(name, ("DFPICKLE", _compression(name, compression), self.copy()))
 
-    def to_csv(self, name, index=True, **kw):
-        minixr._FS[0].put(name, ("DFCSV", bool(index), self.copy()))
+    def to_csv(self, name, index=True, compression="infer", **kw):
+        minixr._FS[0].put(name, ("DFCSV", _compression(name, compression), bool(index), self.copy()))
+
+
+def _compression(name, compression="infer"):
+    """pandas infers the compression from the END of the file name, when writing and when reading"""
+    if compression != "infer":
+        return compression
+    for ext, c in ((".gz", "gzip"), (".bz2", "bz2"), (".zip", "zip"), (".xz", "xz"), (".zst", "zstd"),
+                   (".tar", "tar")):
+        if str(name).endswith(ext):
+            return c
+    return None
 
 
 def concat(frames, ignore_index=False, sort=False):
@@ -50,10 +61,14 @@ def concat(frames, ignore_index=False, sort=False):
 
 
 def _read(kind):
-    def read(name, **kw):
+    def read(name, compression="infer", **kw):
         obj = minixr._FS[0].get(name)
         if not (isinstance(obj, tuple) and obj and obj[0] == kind):
             raise OSError("not a %s file: %r" % (kind, name))
+        if obj[1] != _compression(name, compression):
+            # written with one compression, read with another (e.g. written under a temporary name with another
+            # ending and renamed): BadGzipFile / UnpicklingError / UnicodeDecodeError ... in pandas
+            raise OSError("cannot read %r: stored with compression %r" % (name, obj[1]))
         return obj[-1].copy()
 
     return read
